@@ -238,6 +238,29 @@ def _vtab(verlog):
     return [(v, s, m, o) for (v, s, m), o in seen.items()]
 
 
+def set_keep(kp, v, k):
+    """kp[vid of key v] = Keyage of key k, or remove it (k None): key rotation / revocation by the application"""
+    from hio.core.memo import Keyage
+    if k is None:
+        kp.pop(key(v)["vid"], None)
+    else:
+        kp[key(v)["vid"]] = Keyage(qvk=key(k)["qvk"], qss=key(k)["qss"])
+
+
+def keep_states(ops):
+    """[(vid text -> qvk text) after 0, 1, … keep ops] of a receive history, starting from keep()"""
+    cur = {v: q[0] for v, q in _kp().items()}
+    out = [dict(cur)]
+    for op in norm_ops(ops):
+        if not isinstance(op, str) and op[0] == "keep":
+            if op[2] is None:
+                cur.pop(key(op[1])["vid"], None)
+            else:
+                cur[key(op[1])["vid"]] = key(op[2])["qvk"]
+            out.append(dict(cur))
+    return out
+
+
 def _refdec(q, codes, hz, qz):
     """('ok', raw, code) | ('err', class name) for one piece of qualified Base64 material given as bytes"""
     import binascii
@@ -252,23 +275,24 @@ def _refdec(q, codes, hz, qz):
         return ("err", "Error")
 
 
-def _vparts(verlog):
+def _vparts(verlog, states=None):
     """the third-party parts of Memoer.verify for the model, computed independently of the code under test (stdlib base64 + pysodium):
     the receiver's keep, and for every (vid, sig, ser) the real run asked about: the decoded vid, the decoded keep key, the decoded
     signature, and the ed25519 verdict under every key that could be meant (the one embedded in the vid, the one the keep holds)"""
     kp = _kp()
+    states = states or [{v: q[0] for v, q in kp.items()}]
     dvid, dqvk, dsgn, chk = {}, {}, {}, {}
     for vid, sig, ser, _real in verlog:
         dv = dvid.setdefault(vid, _refdec(vid, ("B", "D", "E"), 1, 44))
         ds = dsgn.setdefault(sig, _refdec(sig, ("0B",), 2, 88))
         keys = [dv[1]] if dv[0] == "ok" else []
         try:
-            q = kp.get(bytes(vid).decode())
+            vt = bytes(vid).decode()
         except UnicodeDecodeError:
-            q = None
-        if q:
-            dq = dqvk.setdefault(q[0].encode(), _refdec(q[0].encode(), ("B",), 1, 44))
-            if dq[0] == "ok":
+            vt = None
+        for q in sorted({st[vt] for st in states if vt in st}):      # every key the keep holds for this id at some point of the history
+            dq = dqvk.setdefault(q.encode(), _refdec(q.encode(), ("B",), 1, 44))
+            if dq[0] == "ok" and dq[1] not in keys:
                 keys.append(dq[1])
         if ds[0] == "ok":
             for k in keys:
@@ -279,7 +303,7 @@ def _vparts(verlog):
                     except Exception:
                         chk[(k, ds[1], ser)] = False
     dec = lambda d, withcode: tuple((k, (("ok", v[1], v[2]) if withcode else ("ok", v[1])) if v[0] == "ok" else ("err", v[1])) for k, v in d.items())
-    return (("keep",) + tuple((v.encode(), q[0].encode()) for v, q in kp.items()), ("dvid",) + dec(dvid, True), ("dqvk",) + dec(dqvk, False),
+    return (("keep",) + tuple((v.encode(), q.encode()) for v, q in states[0].items()), ("dvid",) + dec(dvid, True), ("dqvk",) + dec(dqvk, False),
             ("dsgn",) + dec(dsgn, False), ("chk",) + tuple((k, s, m, b) for (k, s, m), b in chk.items()))
 
 
@@ -288,8 +312,29 @@ def _entries(r):
     for mid, grams in r.rxgs.items():
         vid = r.vids.get(mid)
         out.append((mid.encode(), tuple((gn, bytes(b)) for gn, b in grams.items()), r.counts.get(mid),
-                    vid.encode() if vid is not None else None, int(r.sources[mid][1:])))
+                    vid.encode() if vid is not None else None, addr_id(r.sources[mid])))
     return tuple(out)
+
+
+def addr(n, shape="mixed"):
+    """transport address for the small integer id n, in the shapes the real transports use: a (host, port) tuple (udp), a path str (uxd);
+    mixed: odd ids tuples, even ids strs.  On the receive side id 0 is None (a datagram whose source the transport could not name)."""
+    if shape == "tuple" or (shape == "mixed" and n % 2):
+        return ("10.0.0.%d" % (n % 250), 4000 + n)
+    return "/tmp/hio_uxd/peer%d" % n
+
+
+def src_of(n, shape="mixed"):
+    return None if n == 0 else addr(n, shape)
+
+
+def addr_id(a):
+    """inverse of addr / src_of"""
+    if a is None:
+        return 0
+    if isinstance(a, tuple):
+        return a[1] - 4000
+    return int(a.rsplit("peer", 1)[1])
 
 
 def norm_ops(batches):
@@ -300,6 +345,8 @@ def norm_ops(batches):
     for b in batches:
         if isinstance(b, str):
             out.append(b)
+        elif isinstance(b, (tuple, list)) and len(b) == 3 and b[0] == "keep":
+            out.append(("keep", b[1], b[2]))      # the application replaces (key index) / removes (None) what the keep holds for the vid of key b[1]
         elif isinstance(b, tuple) and b and isinstance(b[0], str):
             out.append((b[0], list(b[1])))
         else:
@@ -322,18 +369,36 @@ class RxSock:
         return len(data)
 
 
+_CYC = [0]
+
+
+def cycle(peer, up):
+    """close / reopen the transport the way applications do: the base Memoer through its own close() / reopen(), alternately through its Doer
+    (MemoerDoer.exit() / .enter()); a PeerMemoer over our scripted socket only has its flag switched (its close() would drop the socket)"""
+    from hio.core.memo import memoing
+    if type(peer).__mro__[1] in (memoing.Memoer, memoing.AuthMemoer):
+        _CYC[0] += 1
+        if _CYC[0] % 2:
+            (peer.reopen if up else peer.close)()
+        else:
+            d = memoing.MemoerDoer(peer=peer)
+            (d.enter if up else d.exit)()
+    else:
+        peer.opened = up
+
+
 def run_rx_ops(r, ops, feed=None, pending=None):
     """feed the ops through the transport (echo queue, or the fake socket under a real Peer), observing after every service call:
     memos that reached the inbox, entries, datagrams still queued, fused memos still in .rxms"""
-    feed = feed or (lambda g, s: r.echos.append((bytes(g), f"s{s}")))
+    feed = feed or (lambda g, s: r.echos.append((bytes(g), src_of(s))))
     pending = pending or (lambda: len(r.echos))
     res = []
     for op in norm_ops(ops):
-        if op == "close":
-            r.opened = False          # Memoer.close(); a Peer's close would also drop the socket, the queue below is ours
+        if op in ("close", "reopen"):
+            cycle(r, op == "reopen")
             continue
-        if op == "reopen":
-            r.opened = True
+        if op[0] == "keep":
+            set_keep(r.keep, op[1], op[2])
             continue
         kind, b = op
         for g, s in b:
@@ -352,7 +417,7 @@ def run_rx_ops(r, ops, feed=None, pending=None):
             res.append(("escape", exn_name(ex)))
             break
         try:
-            dl = tuple((m.encode(), int(s[1:]), v.encode() if v is not None else None) for m, s, v in r.inbox)
+            dl = tuple((m.encode(), addr_id(s), v.encode() if v is not None else None) for m, s, v in r.inbox)
             r.inbox.clear()
             res.append((("delivered",) + dl, ("entries",) + _entries(r), ("queue", pending()), ("pending", len(r.rxms))))
         except BaseException as ex:   # state the adapter cannot render is itself an observation
@@ -369,7 +434,8 @@ def make_receiver(authic, flavor="memoer"):
         r = PM(name="r", authic=authic, keep=keep())
         r.ls = RxSock()
         r.opened = True
-        return r, (lambda g, s: r.ls.queue.append((bytes(g), f"s{s}"))), (lambda: len(r.ls.queue))
+        shape = "tuple" if flavor == "udp" else "str"      # what recvfrom really returns for that transport
+        return r, (lambda g, s: r.ls.queue.append((bytes(g), src_of(s, shape)))), (lambda: len(r.ls.queue))
     TM = make_tm("auth" if flavor == "auth" and authic else "memoer")
     r = TM(echoic=True, authic=authic, keep=keep()) if not (flavor == "auth" and authic) else TM(echoic=True, keep=keep())
     r.reopen()
@@ -379,14 +445,14 @@ def make_receiver(authic, flavor="memoer"):
 def run_rx(authic, ops, flavor="memoer"):
     # a neighbour instance that holds state of its own: nothing of it may leak into (or out of) the receiver under test
     decoy, _f, _p = make_receiver(False)
-    decoy.echos.append((ref_gram("bAAA", False, mid_of(424242), 3, b"decoy"), "s9"))
+    decoy.echos.append((ref_gram("bAAA", False, mid_of(424242), 3, b"decoy"), src_of(9)))
     decoy.serviceAllRx()
     before = (_entries(decoy), len(decoy.inbox))
     r, feed, pend = make_receiver(authic, flavor)
     res = run_rx_ops(r, ops, feed, pend)
     if (_entries(decoy), len(decoy.inbox)) != before or any(e[0] == mid_of(424242).encode() for o in res if o[0] not in ("escape", "unreadable-state") for e in o[1][1:]):
         res.append(("neighbour-instance-disturbed",))
-    return res, _vparts(r.verlog)
+    return res, _vparts(r.verlog, keep_states(ops))
 
 
 def run_e2e(code, curt, size, authic, ki, memos, sched, hist=(), txpath="rend"):
@@ -403,20 +469,24 @@ def run_e2e(code, curt, size, authic, ki, memos, sched, hist=(), txpath="rend"):
     s.reopen()
 
     def assign(pairs):
-        for what, val in pairs:
+        for item in pairs:
+            if item[0] == "keep":           # the sending application rotates its key for the vid of key item[1]
+                set_keep(s.keep, item[1], item[2])
+                continue
+            what, val = item
             try:
                 setattr(s, what, val)          # .code / .curt / .size property setters
             except BaseException:
                 pass                            # refused (raises before storing anything): the application carries on
     assign(hist)
     rends = []
-    plain = not any(len(m) > 3 and m[3] for m in memos)
+    plain = not any(len(m) > 3 and m[3] for m in memos)      # no re-configuration / key rotation between memos
     if txpath != "rend" and plain and memos:
         # the queued way in: every memo is handed to memoit first, with its signer id given explicitly (the peer's own default is another one)
         s.vid = key((ki + 1) % 4)["vid"] if ki is not None else None
         s._mids = list(allmids)
         for m in memos:
-            s.memoit(bytes(m[0]).decode(), f"s{m[2]}", vid)
+            s.memoit(bytes(m[0]).decode(), addr(m[2]), vid)
         got = {}
         fails = {}
         guard = 0
@@ -453,7 +523,7 @@ def run_e2e(code, curt, size, authic, ki, memos, sched, hist=(), txpath="rend"):
                 if txq == "rend":
                     gs = s.rend(text, vid)
                 else:
-                    s.memoit(text, f"s{m[2]}", vid)
+                    s.memoit(text, addr(m[2]), vid)
                     s.serviceTxMemos()
                     s.serviceTxGrams(echoic=True)
                     gs = [g for g, _d in s.echos]
@@ -466,7 +536,7 @@ def run_e2e(code, curt, size, authic, ki, memos, sched, hist=(), txpath="rend"):
                 rends.append(("raise", exn_name(ex)))
     ops = []
     for op in norm_ops(sched):
-        if isinstance(op, str):
+        if isinstance(op, str) or op[0] == "keep":
             ops.append(op)
             continue
         bb = []
@@ -484,7 +554,7 @@ def run_e2e(code, curt, size, authic, ki, memos, sched, hist=(), txpath="rend"):
         if (v, ser) not in seen:
             seen.add((v, ser))
             stab.append((v.encode(), ser, sig))
-    return [("cfg", s.code.encode(), bool(s.curt), s.size), ("rend",) + tuple(rends), ("rx",) + tuple(res)], stab, _vparts(r.verlog), s.size
+    return [("cfg", s.code.encode(), bool(s.curt), s.size), ("rend",) + tuple(rends), ("rx",) + tuple(res)], stab, _vparts(r.verlog, keep_states(sched)), s.size
 
 
 EXOTIC = {   # OSError subclasses a socket really raises, with the errno the model sees (0 = none that any table knows)
@@ -543,28 +613,34 @@ def run_tx(grams, script, calls, peer=None):
         t.opened = True
         decoy = PM(name="decoy")
     decoy.gramit(b"decoy-gram", "d9")        # a neighbour instance with a queued gram of its own: must stay as it is
+    shape = "tuple" if peer == "udp" else ("str" if peer == "uxd" else "mixed")
+    shared = {}         # ONE bytearray object per distinct content: a buffer the caller fans out to several destinations / queues again
+    contents = [bytes(g) for g, _d in grams] + [bytes(c[1]) for c in calls if isinstance(c, (tuple, list))]
+
+    def form(i, g):
+        g = bytes(g)
+        if contents.count(g) > 1 or i % 2:
+            return shared.setdefault(g, bytearray(g))
+        return g
     for i, (g, d) in enumerate(grams):
-        t.gramit(bytearray(g) if i % 2 else bytes(g), f"d{d}")      # both forms the API accepts
+        t.gramit(form(i, g), addr(d, shape))      # both forms the API accepts
     res = []
 
     def state():
-        return (("txgs",) + tuple((bytes(g), int(d[1:])) for g, d in t.txgs), ("txb", bytes(t.txbs[0])),
-                ("dst", int(t.txbs[1][1:]) if t.txbs[1] is not None else None))
+        return (("txgs",) + tuple((bytes(g), addr_id(d)) for g, d in t.txgs), ("txb", bytes(t.txbs[0])),
+                ("dst", addr_id(t.txbs[1]) if t.txbs[1] is not None else None))
 
     def evs(k):
         out = []
         for dst, offered, r in t.sendlog[k:]:
-            out.append((int(dst[1:]), offered, ("e", errno_of(r[1]) if isinstance(r[1], str) else r[1]) if r[0] == "e" else r))
+            out.append((addr_id(dst), offered, ("e", errno_of(r[1]) if isinstance(r[1], str) else r[1]) if r[0] == "e" else r))
         return tuple(out)
     for c in calls:
         if isinstance(c, (tuple, list)):
-            t.gramit(bytes(c[1]), f"d{c[2]}")
+            t.gramit(form(1, c[1]), addr(c[2], shape))
             continue
-        if c == "c":
-            t.opened = False
-            continue
-        if c == "r":
-            t.opened = True
+        if c in ("c", "r"):
+            cycle(t, c == "r")
             continue
         k = len(t.sendlog)
         try:
@@ -588,6 +664,8 @@ def run_tx(grams, script, calls, peer=None):
         res.append(("unreadable-state", type(ex).__name__))
     if list(decoy.txgs) != [(b"decoy-gram", "d9")] or decoy.txbs[1] is not None:
         res.append(("neighbour-instance-disturbed",))
+    if any(bytes(obj) != content for content, obj in shared.items()):
+        res.append(("callers-buffer-modified",))       # the gram handed to gramit belongs to the caller
     return res
 
 
